@@ -17,6 +17,28 @@ META = {
         "Quick: sse_t1, avx2_t2, avx512_t2; thorough: all nine variants.",
    technique="CBMC call-site precondition (callee-contract requires) checking over a fully symbolic accepted descriptor on the real dispatch tables; real is_job_invalid as acceptance predicate",
    design="DESIGN.md §3 C06"),
+ "C05": dict(
+   text="Deductive, all ring states and all call histories by induction over the representation invariant: each single-job ring operation of the real per-variant "
+        "unit is verified against a FIFO contract (ghost head/tail indexes over the real 256-slot ring): exact next/earliest arithmetic incl. wrap-around, "
+        "oldest-first hand-back only with status >= COMPLETED, full queue forces completion of the oldest job, offered slot not in flight, queue size = view size, "
+        "rejected job never reaches a stage. Only the head and tail slots can be touched (any other slot access fails an obligation).",
+   note="Stage sequencers (submit_new_job, complete_job), the parameter check and JOBS() are replaced by models (trusted_base; JOBS typed form proved by a lemma on the real function). "
+        "Partial correctness: termination of flush loops depends on the NASM managers. Burst API units are listed separately when present.",
+   technique="CBMC DFCC function contracts with ghost abstract-queue view; callee models linked in place of stage sequencers",
+   design="DESIGN.md §3 C05"),
+ "C14": dict(
+   text="Deductive: (a) error plumbing - imb_get_strerror total over all int (every library code has its own string), imb_set_errno/imb_get_errno contracts; "
+        "(b) frame of every single-job ring operation: only earliest/next/errno and the status of the head and tail slot are assignable, so no C path writes a caller-owned descriptor field; "
+        "status on hand-back >= COMPLETED; per-call errno 0 on success / the check's code on rejection.",
+   note="Writes done inside NASM kernels are assumed (status only). Stage dispatchers in C are covered as their binding units are added.",
+   technique="CBMC DFCC assigns-clause (frame) checking and postconditions on the real C code",
+   design="DESIGN.md §3 C14"),
+ "C15": dict(
+   text="Deductive 2-run self-composition on the real ooo_mgr_*_reset functions: for an arbitrary byte index, two managers with arbitrary independent prior contents agree after reset "
+        "(no residue), nothing at or past road_block is written, and the free-lane stack holds lanes 0..n-1, for every lane count any variant passes (call sites scanned each run).",
+   note="memset is CBMC's library model. Behaviour of NASM kernels on a reset manager is outside C contracts. Variant init/reset_ooo_mgrs coverage is added as units exist.",
+   technique="CBMC self-composition harness with ghost byte index over the real reset functions",
+   design="DESIGN.md §3 C15"),
 }
 NOT_APPLICABLE = {
  "C18": "callee-saved registers, RSP, DF and MXCSR are not C-visible state; no CBMC contract can mention them and the functions at issue are hand-written NASM (DESIGN.md §3 C18)",
